@@ -75,6 +75,20 @@ TABLE = [
      'through prune and re-open. Outputs are parsed strictly and accounted per input id.',
      'Without a reject handle only the demultiplexed side and the counters are compared; one strategy per run; '
      'CHROMC16U12 rejects everything (emptied whitelist).'),
+    ('C13',
+     'bounded-exhaustive enumeration of fragment words (every ordered word = every multiset in every insertion order) over per-position contribution kinds, plus 3-position window cases, on the real Molecule.get_consensus; brute-force vote oracle and permutation/doubling invariance',
+     'Every ordered word of <=5 (thorough <=7) fragments over 8 position-level kinds (not covering, single-end A/C, N, mates agree, R1/R2 '
+     'disagree with either mate better, equal-quality disagreement), 11 kinds at <=3 (<=5); each multiset also doubled (appended and '
+     'interleaved); window level: 3 adjacent positions, <=3 fragments, all covered sub-windows, both strands, soft clip / deletion / '
+     'insertion / skip reads, dove_safe on and off. Oracle: one call per fragment (better mate; tie or N = no call), strict plurality or absent.',
+     'Fragments have an R1 (R2-only fragments are skipped by the code); qualities limited to two levels.'),
+    ('C15',
+     'bounded-exhaustive enumeration of coverage shapes (multisets of <=3 fragment letters: mate gap x mismatch class x read length, both strands, Nla/CHIC/plain classes) through deduplicate_majority, write_pysam(consensus=True), run_tagging_task and the real --consensus --multiprocess command line; well-formedness oracle',
+     'All multisets of <=3 fragment letters (single end, overlapping, adjacent, small gap, gap beyond max_N_span; clean / R1 mismatch at q30 '
+     'or q10 / R2 mismatch; two read lengths) x strand x molecule class x max_N_span None/5 x with/without source reads. Oracle: aligned '
+     'blocks == union of read coverage, len(seq)==len(qual)==CIGAR query length, MD rebuilt against the true reference, unanimous => that '
+     'base, symmetric evidence => N, dominating evidence => that base, SM/RX/DS/TF/TR tags equal the molecule\'s.',
+     'Reads with N bases and CHIC molecules with assignment radius >0 are not generated; "no record skips more than max_N_span" is taken from the parameter name.'),
 ]
 
 # id -> reason it is currently not claimed
